@@ -322,6 +322,19 @@ def run(F, R, tier):
             asserted = any("assert" in (n.get("mac") or []) for n in b["_nodes"])
             R.ob("C16-d", "%s::insert asserts that nothing is replaced" % p, asserted, "insert no longer asserts `.is_none()`", b["file"])
 
+    # overload flagging looks at the declaration added just before (the previous overload
+    # signature), and nested declarations inherit ambient-ness from any enclosing `declare`
+    adb = F.body("symbols::analyzer::SymbolMut::add_decl")
+    pick = [n for n in adb["_nodes"] if n.get("k") == "MethodCall" and n["name"] in ("last", "first", "get", "iter") and field_of(n["recv"]) == "decls"]
+    R.ob("C16-c", "an implementation is flagged by looking at the declaration added just before it", len(pick) == 1 and pick[0]["name"] == "last",
+         "add_decl inspects `%s`: with merged declarations (namespace + function) the previous overload signature is not the one looked at, so the implementation signature is treated as public API" % (expr_text(pick[0])[:30] if pick else "?"), adb["file"])
+    amb = [n for n in F.all_nodes() if n.get("k") == "Binary" and n["op"] in ("||", "&&") and n["_top"]["file"] == "src/symbols/analyzer.rs" and not n["_top"].get("derived")
+           and peel(n["l"]).get("res") == "local" and tyc(F, n["l"], "bool") and peel(n["r"]).get("k") == "Field" and peel(n["r"])["field"] == "declare"]
+    R.floor("C16-c ambient propagation sites", len(amb), 3)
+    for n in amb:
+        R.ob("C16-c", "a declaration is ambient if it or anything enclosing it is declared", n["op"] == "||",
+             "`%s`: a `declare namespace` inside ordinary code (or ordinary members inside an ambient one) would get the wrong ambient flag, which decides whether bodies are kept" % expr_text(n), where(n))
+
     # ---------------- C16-e ------------------------------------------------
     from . import c09
     c09.prefer_types_sites(F, R, tag="C16-e")
